@@ -229,6 +229,7 @@ def expected_write(c, mv, ty):
         elif c['rhs'] == 1: r = 2 + (i * 7) % 11
         elif c['rhs'] == 2: r = (2 + (i * 7) % 11) * 2 + 1
         elif c['rhs'] == 3: r = 5 + (o * 3) % 7
+        elif c['rhs'] == 5: r = 2 + (i * 7) % 11
         else: r = (5 + (o * 3) % 7) * 2 + 1
         A[o] = apply(c['op'], A[o], r, ty)
     return A
@@ -363,7 +364,7 @@ def gen_fixed(sd, tr):
                 for op in g.sample(range(5), 3 if quick else 5):
                     ty = tys[len(cases) % 4]
                     if ty == 'float' and op == 4: ty = 'double'
-                    cases.append({'kind': 'FW', 'ty': ty, 'dims': dims, 'rs': c, 'op': op, 'rhs': g.next() % 5})
+                    cases.append({'kind': 'FW', 'ty': ty, 'dims': dims, 'rs': c, 'op': op, 'rhs': g.next() % (6 if rank == 2 else 5)})
             # overlap with noalias: pairs of equal extents
             bysz = {}
             for c in combos: bysz.setdefault(tuple(rsize(False, d, *r) for d, r in zip(dims, c)), []).append(c)
@@ -415,7 +416,9 @@ def cpp_fixed(shard):
             L.append('  struct { alignas(64) T pre[16]; Tensor<T,%s> A; alignas(64) T post[16]; } F; for (int i = 0; i < 16; ++i) { F.pre[i] = (T)77; F.post[i] = (T)77; }' % dd)
             L.append('  for (size_t i = 0; i < %d; ++i) F.A.data()[i] = (T)(10 + i); Tensor<T,%s> B; for (size_t i = 0; i < %d; ++i) B.data()[i] = (T)(5 + (i * 3) %% 7);' % (n, dd, n))
             L.append('  Tensor<T,%s> Rt; for (size_t i = 0; i < %d; ++i) Rt.data()[i] = (T)(2 + (i * 7) %% 11);' % (ee, m))
-            rhs = ['(T)3', 'Rt', 'Rt*(T)2 + (T)1', 'B(%s)' % args, 'B(%s)*(T)2 + (T)1' % args][c['rhs']]
+            rhs = ['(T)3', 'Rt', 'Rt*(T)2 + (T)1', 'B(%s)' % args, 'B(%s)*(T)2 + (T)1' % args, 'trans(RtT)'][c['rhs']]
+            if c['rhs'] == 5:   # a right-hand side that requires evaluation (rank 2 only): trans of the transposed copy has Rt's values
+                L.append('  Tensor<T,%d,%d> RtT; for (size_t i = 0; i < %d; ++i) for (size_t j = 0; j < %d; ++j) RtT(j,i) = Rt(i,j);' % (ext[1], ext[0], ext[0], ext[1]))
             L.append('  F.A(%s) %s %s;' % (args, op, rhs))
             L.append('  int dmg = 0; for (int i = 0; i < 16; ++i) { if (F.pre[i] != (T)77) ++dmg; if (F.post[i] != (T)77) ++dmg; } std::printf("F %%ld %%d\\n", id, dmg); vh_line("A", id, F.A.data(), %d); }' % n)
         elif c['kind'] == 'FO':
